@@ -21,6 +21,10 @@ Definition status_code_len : N := 3.
    100 <= status < 200 or status in [204, 304] -> keep; Content-Length or Transfer-Encoding -> keep; else close *)
 Definition close_default_bodiless (c : N) : bool := (c =? 204) || (c =? 304) || ((100 <=? c) && (c <? 200)).
 
+(* a lax line, complete or buffered, is measured as len(line) - line.endswith(CR) (Model/HttpResp.v len1);
+   a buffered lax chunk-size line is measured raw like the complete one: shapes checked *)
+Definition lax_line_length_discounts_one_cr : bool := true.
+
 (* lax = not DEBUG; SEP = LF; lines are rstrip(CR)'ed; chunk sizes are strip()'ed; the optional CR after
-   chunk data is skipped, nothing after the last-chunk line; _is_chunked_te by rsplit: shapes checked *)
+   chunk data is skipped unless it ends the read (then it stays buffered), nothing after the last-chunk line; _is_chunked_te by rsplit: shapes checked *)
 Definition lax_shapes_checked : bool := true.
